@@ -120,11 +120,54 @@ func (s *S) Adv(d time.Duration) {
 // goroutine; it records the call and, when fn returns, the result.  fn
 // returns the extra fields of the ret event.
 func (s *S) Call(th, op, o string, args []interface{}, fn func() []interface{}) {
+	s.callKind("call", th, op, o, args, fn)
+}
+
+// CallC is Call for calls issued at the same moment as others (no quiescence
+// in between): the event kind is "callc" - the order of these lines says
+// nothing about the order in which the calls take effect.
+func (s *S) CallC(th, op, o string, args []interface{}, fn func() []interface{}) {
+	s.callKind("callc", th, op, o, args, fn)
+}
+
+// PCall is a prepared API call for SerialC.
+type PCall struct {
+	Op, O string
+	Args  []interface{}
+	Fn    func() []interface{}
+}
+
+// SerialC runs the prepared calls one after the other on client thread th, in
+// one goroutine of its own, each recorded as callc / ret by that goroutine
+// (so several threads started together really overlap).  start, when not nil,
+// is waited for before the first call.
+func (s *S) SerialC(th string, calls []PCall, start <-chan struct{}) {
+	s.mu.Lock()
+	s.pending[th] = true
+	s.mu.Unlock()
+	s.wg.Add(1)
+	go func() {
+		defer s.wg.Done()
+		if start != nil {
+			<-start
+		}
+		for _, c := range calls {
+			s.Rec.Emit("callc", append([]interface{}{"th", th, "op", c.Op, "o", c.O}, c.Args...)...)
+			out := c.Fn()
+			s.Rec.Emit("ret", append([]interface{}{"th", th, "op", c.Op, "o", c.O}, out...)...)
+		}
+		s.mu.Lock()
+		delete(s.pending, th)
+		s.mu.Unlock()
+	}()
+}
+
+func (s *S) callKind(kind, th, op, o string, args []interface{}, fn func() []interface{}) {
 	kv := append([]interface{}{"th", th, "op", op, "o", o}, args...)
 	s.mu.Lock()
 	s.pending[th] = true
 	s.mu.Unlock()
-	s.Rec.Emit("call", kv...)
+	s.Rec.Emit(kind, kv...)
 	s.wg.Add(1)
 	go func() {
 		defer s.wg.Done()
